@@ -1,7 +1,7 @@
 (* Running the regenerated statement lists of wiretypes.go's encoder methods
    (Model/WireIR.v) is the positional model of Model/Fill.v, for every value,
    buffer and position. *)
-From MQ Require Import Model.WireIR.
+From MQ Require Import Model.WireIR Proofs.FillP.
 From Coq Require Import String Lia.
 Local Open Scope nat_scope.
 
@@ -295,4 +295,15 @@ Lemma self_width_is_length w v id : w <> Vb ->
   e_self_width (env_of w v id) = List.length (encode w v).
 Proof.
   intros Hw. destruct w; try congruence; cbn [env_of e_self_width encode]; try reflexivity.
+Qed.
+
+(* the width methods return the number of bytes the type contributes - the
+   amount buffer.get advances by after a decode (Wire.width) *)
+Theorem wire_width_is_width w v id buf i :
+  run_fill (prog (go_type w ++ ".width")) (env_of w v id) buf i = Some (buf, Wire.width w v).
+Proof.
+  rewrite wire_width_is_prog. unfold Wire.width. f_equal. f_equal.
+  destruct w; try (apply self_width_is_length; discriminate).
+  cbn [env_of e_self_width encode].
+  destruct (fill_vb_ok (valN v) [] 0) as (b' & E & _). rewrite E. reflexivity.
 Qed.
